@@ -1,0 +1,113 @@
+//go:build verif
+
+// Contracts for package pool (checked by /verif/govc; comment-only file).
+package pool
+
+// ---- C19 (the part that is a lock discipline) ----
+// The generator is sequential. What makes the clauses below hold under every interleaving is the monitor reading of
+// P.keysLock: gHeld - this goroutine holds the lock; Lock ASSUMES the lock invariant and forgets everything the lock
+// protects (the keys field, the map contents, which channels are closed and how full they are: other goroutines may
+// have changed them); Unlock must RE-ESTABLISH the invariant (obligation) and forgets the protected state again. The
+// protected state is read and written only while the lock is held (assert-load / assert-store on .keys).
+// Lock invariant: every bucket in the table has an open channel (a bucket's channel is closed only together with the
+// bucket's removal from the table, inside one critical section).
+//@ ghost var gHeld bool
+//@ pure func poolInv(p *P) bool = p.keys != nil ==> (forall k string :: has(p.keys, k) ==> p.keys[k].c != nil && !chanclosed(p.keys[k].c)) && (forall k string, j string :: has(p.keys, k) && has(p.keys, j) && k != j ==> p.keys[k].c != p.keys[j].c)
+//@ extern func (*P).CleanUp#Lock$call(m *sync.Mutex)
+//@   requires !gHeld
+//@   modifies gHeld, p.keys, mapOf(p.keys), chanstate()
+//@   ensures gHeld && poolInv(p)
+//@ extern func (*P).CleanUp#Unlock$call(m *sync.Mutex)
+//@   requires gHeld && poolInv(p)
+//@   modifies gHeld, p.keys, mapOf(p.keys), chanstate()
+//@   ensures !gHeld
+//@ extern func (*P).Get#Lock$call(m *sync.Mutex)
+//@   requires !gHeld
+//@   modifies gHeld, p.keys, mapOf(p.keys), chanstate()
+//@   ensures gHeld && poolInv(p)
+//@ extern func (*P).Get#Unlock$call(m *sync.Mutex)
+//@   requires gHeld && poolInv(p)
+//@   modifies gHeld, p.keys, mapOf(p.keys), chanstate()
+//@   ensures !gHeld
+//@ extern func (*P).Return#Lock$call(m *sync.Mutex)
+//@   requires !gHeld
+//@   modifies gHeld, p.keys, mapOf(p.keys), chanstate()
+//@   ensures gHeld && poolInv(p)
+//@   ensures p.keys != nil ==> (forall k string :: has(p.keys, k) ==> !fresh(p.keys[k].c))
+//@ extern func (*P).Return#Unlock$call(m *sync.Mutex)
+//@   requires gHeld && poolInv(p)
+//@   modifies gHeld, p.keys, mapOf(p.keys), chanstate()
+//@   ensures !gHeld
+//@ extern func (*P).Close#Lock$call(m *sync.Mutex)
+//@   requires !gHeld
+//@   modifies gHeld, p.keys, mapOf(p.keys), chanstate()
+//@   ensures gHeld && poolInv(p)
+//@ extern func (*P).Close#Unlock$call(m *sync.Mutex)
+//@   requires gHeld && poolInv(p)
+//@   modifies gHeld, p.keys, mapOf(p.keys), chanstate()
+//@   ensures !gHeld
+// Connections: Usable / LastUseAt / Close of the pooled objects (interface; assumed not to touch the pool).
+//@ ghost var gUsableOK Set[ref]
+//@ extern func (Conn).Usable(c Conn) bool
+//@   modifies gUsableOK
+//@   ensures gUsableOK == store(old(gUsableOK), refOf(c), result)
+//@ extern func (Conn).LastUseAt(c Conn) time.Time
+//@ extern func (Conn).Close(c Conn) error
+// The constructor configured for the pool (no pooled connection available): its result is not a pooled connection.
+//@ ghost var gNewCalls int
+//@ extern func (*P).Get#New$call(ctx context.Context, key string) (c Conn, err error)
+//@   modifies gNewCalls
+//@   ensures gNewCalls == old(gNewCalls) + 1
+//@ func (*P).CleanUp
+//@   prop C19
+//@   nopanic
+//@   chan-nonnil
+//@   requires p != nil && !gHeld
+//@   modifies *
+//@   ensures !gHeld
+//@   assert-load keys : gHeld
+//@   assert-store keys : gHeld
+//@   loop 0 invariant gHeld && poolInv(p)
+//@   loop 1 invariant gHeld && p.keys != nil && has(p.keys, k) && (forall j string :: has(p.keys, j) && j != k ==> p.keys[j].c != nil && !chanclosed(p.keys[j].c)) && (forall i string, j string :: has(p.keys, i) && has(p.keys, j) && i != j ==> p.keys[i].c != p.keys[j].c)
+// Return: a connection is put into the bucket of its key (created when absent; stale buckets are collected - closed
+// and removed in the same critical section - when the table is full) or, when the bucket is full, closed; a pool that
+// was shut down (keys == nil) takes nothing. The send happens inside the critical section, on a channel the
+// invariant says is open: it can never hit a closed channel.
+//@ func (*P).Return
+//@   prop C19
+//@   nopanic
+//@   chan-nonnil
+//@   requires[C19] p != nil && !gHeld && c != nil
+//@   modifies *
+//@   ensures !gHeld
+//@   assert-load keys : gHeld
+//@   assert-store keys : gHeld
+//@   loop 0 invariant gHeld && poolInv(p) && p.keys != nil && (forall j string :: has(p.keys, j) ==> !fresh(p.keys[j].c))
+//@   loop 1 invariant gHeld && p.keys != nil && (forall j string :: has(p.keys, j) ==> p.keys[j].c != nil && !chanclosed(p.keys[j].c)) && (forall i string, j string :: has(p.keys, i) && has(p.keys, j) && i != j ==> p.keys[i].c != p.keys[j].c)
+// Close: every bucket is closed, drained (each drained connection closed) and removed; the table is gone afterwards.
+//@ func (*P).Close
+//@   prop C19
+//@   nopanic
+//@   chan-nonnil
+//@   requires p != nil && !gHeld && p.cleanupStop != nil && !chanclosed(p.cleanupStop)
+//@   modifies *
+//@   ensures !gHeld
+//@   assert-call (*sync.Mutex).Unlock : p.keys == nil
+//@   assert-load keys : gHeld
+//@   assert-store keys : gHeld
+//@   loop 0 invariant gHeld && poolInv(p)
+//@   loop 1 invariant gHeld && p.keys != nil && has(p.keys, k) && (forall j string :: has(p.keys, j) && j != k ==> p.keys[j].c != nil && !chanclosed(p.keys[j].c)) && (forall i string, j string :: has(p.keys, i) && has(p.keys, j) && i != j ==> p.keys[i].c != p.keys[j].c)
+// Get: the table is consulted (and an expired bucket removed and closed) inside the critical section; a pooled
+// connection is handed out only after its Usable() returned true; every other connection taken out is closed.
+//@ func (*P).Get
+//@   prop C19
+//@   nopanic
+//@   chan-nonnil
+//@   requires p != nil && !gHeld
+//@   modifies *
+//@   ensures !gHeld
+//@   ensures gNewCalls == old(gNewCalls) && result1 == nil ==> result0 != nil && gUsableOK[refOf(result0)]
+//@   assert-load keys : gHeld
+//@   assert-store keys : gHeld
+//@   loop 0 invariant !gHeld && gNewCalls == old(gNewCalls)
+//@   loop 1 invariant !gHeld && gNewCalls == old(gNewCalls)
